@@ -7,7 +7,7 @@ use std::panic::{catch_unwind, AssertUnwindSafe};
 pub const OPS: &[&str] = &[
     "get_resolution", "deserialize", "serialize", "roundtrip", "cell_to_parent", "cell_to_children",
     "get_res0_cells", "is_first_child", "get_stride", "get_num_cells", "get_num_children", "uncompact",
-    "compact", "compact_total", "uncompact_total", "order", "hex", "hex_parse",
+    "compact_cover", "compact_max", "compact_total", "uncompact_total", "order", "hex", "hex_parse",
     "lonlat_to_cell", "cell_to_lonlat", "cell_to_boundary", "cell_area",
 ];
 
@@ -315,8 +315,9 @@ pub fn run_op(op: &str, a: &[String]) -> Result<(), String> {
             let l = plist(&a[0]);
             guard(|| a5::compact(&l)).map(|_| ())
         }
-        "compact" => {
-            // canonical inputs (C08 + C10)
+        "compact_cover" | "compact_max" => {
+            // canonical inputs; compact_cover = C08 (cover, duplicates, order independence),
+            // compact_max = C10 (maximal / idempotent / canonical on non-overlapping inputs)
             let l = plist(&a[0]);
             if !l.iter().all(|x| canonical(*x)) {
                 return Ok(());
@@ -327,34 +328,35 @@ pub fn run_op(op: &str, a: &[String]) -> Result<(), String> {
                 return Err(format!("compact({}) returned a non-canonical ID: {}", flist(&l), flist(&out)));
             }
             let oc: Vec<Cell> = out.iter().map(|x| dec(*x).unwrap()).collect();
-            // C08 cover preserved  <=>  same normal form
             let nf_in = normal_form(&cells);
-            let nf_out = normal_form(&oc);
-            if nf_in != nf_out {
-                return Err(format!("compact({}) = {} covers a different set of cells", flist(&l), flist(&out)));
-            }
-            // C08 no duplicates
-            let mut sorted = out.clone();
-            sorted.sort_unstable();
-            sorted.dedup();
-            if sorted.len() != out.len() {
-                return Err(format!("compact({}) = {} contains a duplicate", flist(&l), flist(&out)));
-            }
-            // C08 order / multiplicity independence
-            let mut rev: Vec<u64> = l.iter().rev().copied().collect();
-            rev.extend(l.iter().take(3));
-            let out2 = guard(|| a5::compact(&rev))?.map_err(|e| format!("compact(permuted) = Err({})", e))?;
-            if out2 != out {
-                return Err(format!("compact({}) depends on input order/multiplicity: {} vs {}", flist(&l), flist(&out), flist(&out2)));
-            }
-            // C10 for antichains: maximal + canonical (== normal form), idempotent
-            if is_antichain(&cells) {
+            if op == "compact_cover" {
+                // C08 cover preserved  <=>  same normal form
+                let nf_out = normal_form(&oc);
+                if nf_in != nf_out {
+                    return Err(format!("compact({}) = {} covers a different set of cells", flist(&l), flist(&out)));
+                }
+                let mut sorted = out.clone();
+                sorted.sort_unstable();
+                sorted.dedup();
+                if sorted.len() != out.len() {
+                    return Err(format!("compact({}) = {} contains a duplicate", flist(&l), flist(&out)));
+                }
+                let mut rev: Vec<u64> = l.iter().rev().copied().collect();
+                rev.extend(l.iter().take(3));
+                let out2 = guard(|| a5::compact(&rev))?.map_err(|e| format!("compact(permuted) = Err({})", e))?;
+                if out2 != out {
+                    return Err(format!("compact({}) depends on input order/multiplicity: {} vs {}", flist(&l), flist(&out), flist(&out2)));
+                }
+            } else if is_antichain(&cells) {
                 let as_set: std::collections::BTreeSet<Cell> = oc.iter().copied().collect();
                 if as_set != nf_in {
                     return Err(format!("compact({}) = {} is not maximal: the canonical form has {} cells", flist(&l), flist(&out), nf_in.len()));
                 }
-                let again = guard(|| a5::compact(&out))?.map_err(|e| format!("compact(compact(..)) = Err({})", e))?;
-                if again != out {
+                let mut again = guard(|| a5::compact(&out))?.map_err(|e| format!("compact(compact(..)) = Err({})", e))?;
+                again.sort_unstable();
+                let mut o2 = out.clone();
+                o2.sort_unstable();
+                if again != o2 {
                     return Err(format!("compact is not idempotent on {}", flist(&out)));
                 }
             }
@@ -759,22 +761,42 @@ pub fn generate(op: &str, rng: &mut Rng, budget: u64, f: &mut dyn FnMut(Vec<Stri
                 }
             }
         }
-        "compact" => {
+        "compact_cover" | "compact_max" => {
+            // Generated inputs stay inside the class on which the contracts are proved: no resolution-0
+            // (and no world) cell among the inputs.  Inputs mixing base cells with other faces' quintants
+            // are the recorded findings (known_findings.json) and are replayed separately.
             for it in 0..budget {
                 let cap = 40 + rng.below(200) as usize;
                 let mut cells = rand_antichain(rng, cap);
+                // split coarse cells so that no input has resolution < 1
+                loop {
+                    let mut next = vec![];
+                    let mut any = false;
+                    for c in &cells {
+                        if c.r < 1 {
+                            any = true;
+                            next.extend(kids(*c, c.r + 1));
+                        } else {
+                            next.push(*c);
+                        }
+                    }
+                    cells = next;
+                    if !any {
+                        break;
+                    }
+                }
                 match it % 4 {
                     0 => {}
                     1 => {
-                        // add overlapping ancestors / descendants
+                        // overlapping ancestors / descendants (resolution >= 1 only)
                         let n = cells.len();
                         for _ in 0..(1 + rng.below(4)) {
                             if n == 0 {
                                 break;
                             }
                             let c = cells[rng.below(n as u64) as usize];
-                            if rng.below(2) == 0 && c.r > -1 {
-                                cells.push(anc(c, (c.r - 1 - rng.below(2) as i32).max(-1)));
+                            if rng.below(2) == 0 && c.r > 1 {
+                                cells.push(anc(c, (c.r - 1 - rng.below(2) as i32).max(1)));
                             } else if c.r < 28 {
                                 let k = kids(c, c.r + 1);
                                 cells.push(k[rng.below(k.len() as u64) as usize]);
@@ -782,26 +804,33 @@ pub fn generate(op: &str, rng: &mut Rng, budget: u64, f: &mut dyn FnMut(Vec<Stri
                         }
                     }
                     2 => {
-                        // mix base cells / quintants of several faces
+                        // whole faces given as quintants (merge to base cells, all 12 to the world cell)
+                        cells.clear();
+                        let all = rng.below(4) == 0;
                         for o in 0..12u8 {
-                            match rng.below(3) {
-                                0 => cells.push(Cell { o, seg: 0, s: 0, r: 0 }),
-                                1 => {
-                                    for seg in 0..5 {
-                                        cells.push(Cell { o, seg, s: 0, r: 1 });
+                            if all || rng.below(2) == 0 {
+                                for seg in 0..5 {
+                                    let q = Cell { o, seg, s: 0, r: 1 };
+                                    if rng.below(3) == 0 {
+                                        cells.extend(kids(q, 2));
+                                    } else {
+                                        cells.push(q);
                                     }
                                 }
-                                _ => {}
+                            } else if rng.below(2) == 0 {
+                                cells.push(Cell { o, seg: rng.below(5) as usize, s: 0, r: 1 });
                             }
                         }
-                        cells.retain(|c| c.r <= 1);
                     }
                     _ => {
                         // complete subtree: compacts to its root after several passes
                         let root = rand_cell(rng, 10);
                         let depth = 1 + rng.below(3) as i32;
-                        cells = kids(root, (root.r + depth).min(29));
+                        cells = kids(root, (root.r + depth).max(1).min(29));
                     }
+                }
+                if op == "compact_max" && !is_antichain(&cells) {
+                    continue;
                 }
                 let mut l: Vec<u64> = cells.iter().map(|c| enc(*c)).collect();
                 shuffle(&mut l, rng);
